@@ -24,8 +24,16 @@ def main(chk: core.Check, replay):
             chk.violation(f"C19:{p['kind']}:{o['id']}:{o['role']}:{o['backend']}:{p.get('fn', '')}", {**o, "problem": p},
                           f"identifier `{o['id']}` as {o['role']} in the {o['backend']} backend: {p['kind']} "
                           f"{p.get('fn', '')} {p.get('message', '')}{(' got ' + repr(p.get('got')) + ' want ' + repr(p.get('want'))) if 'got' in p else ''}"[:300])
+    # the expectations must be defined, or nothing is compared (numbers of the model are chosen for that)
+    undefined = [k for r in recs[:1] for k, v in r["den"].items() if v["k"] == "u"] + [k for r in recs[:1] for k, v in r["euler"].items() if v["k"] == "u"]
+    if undefined:
+        raise core.MachineryFailure(f"MC_Ident: expectation undefined for {undefined}")
     spec_caps = sorted({r["id"] for r in recs if r["spec_captures"]})
     accepted_caps = sorted({o["id"] for o in out if o["outcome"] == "generated"} & set(spec_caps))
+    cmpd, undef = sum(o.get("compared", 0) for o in out), sum(o.get("undefined", 0) for o in out)
+    if cmpd == 0 or undef > cmpd // 4:
+        raise core.MachineryFailure(f"identifier corpus: {cmpd} values compared, {undef} without a defined expectation")
+    chk.extra["identifier_values"] = {"compared": cmpd, "undefined": undef}
     chk.extra["identifiers"] = {"universe": len({r["id"] for r in recs}), "triples": len(out), "outcomes": summary,
                                 "spec_predicts_capture_without_check": spec_caps,
                                 "predicted_capturing_but_accepted_by_loader": accepted_caps}
